@@ -60,6 +60,8 @@ type Contract struct {
 	Extern     bool
 	Lemma      bool
 	NoFrame    bool
+	Wiring     bool // abstract mode, no memory-safety obligations: only call-site/ensures/invariant obligations
+	CallSites  []CallSiteSpec
 	NoWrap     bool
 	NoWrapAssumed bool
 	RealDiv    bool
@@ -94,6 +96,13 @@ func (c *Contract) resultNames(fn *ssa.Function) []string {
 		out = append(out, res.At(i).Name())
 	}
 	return out
+}
+
+// CallSiteSpec: an obligation on the arguments of every call of Callee inside the function under
+// contract (callee parameter names are bound to the arguments; caller variables by name).
+type CallSiteSpec struct {
+	Callee string
+	Clause Clause
 }
 
 type GuardDecl struct {
@@ -348,6 +357,18 @@ func (c *Ctx) parseContracts(p *packages.Package) error {
 						}
 						cur.Uses = append(cur.Uses, x)
 						lastClause = nil
+					case "callsite":
+						// callsite <callee> requires [label:] expr
+						if len(fields) < 4 || fields[2] != "requires" {
+							return fmt.Errorf("%s: bad callsite clause", where)
+						}
+						body := strings.TrimSpace(rest[strings.Index(rest, "requires")+len("requires"):])
+						cl, err := parseClause(body)
+						if err != nil {
+							return fmt.Errorf("%s: %v", where, err)
+						}
+						cur.CallSites = append(cur.CallSites, CallSiteSpec{Callee: fields[1], Clause: cl})
+						lastClause = &cur.CallSites[len(cur.CallSites)-1].Clause
 					case "trusted":
 						cur.Trusted = true
 					case "inline":
@@ -356,6 +377,10 @@ func (c *Ctx) parseContracts(p *packages.Package) error {
 						cur.Arith = true
 					case "abstract":
 						cur.Abstract = true
+					case "wiring":
+						cur.Abstract = true
+						cur.Wiring = true
+						cur.NoFrame = true
 					case "realdiv":
 						cur.RealDiv = true
 					case "nowrap":
